@@ -510,4 +510,71 @@ def flatten (s : State) : List Ev → List Op
   | .op o :: es => o :: flatten (step s o).1 es
   | .tx msgs :: es => if (tx s msgs).2 = .ok then msgs ++ flatten (tx s msgs).1 es else flatten s es
 
+/-! ### messages a CONTRACT dispatches (CosmosMsg::Any / Stargate): the wasm route
+
+No ante handler ever sees a message a CosmWasm contract dispatches.  What stands between the contract and the
+msg-server handlers (which act for `Metadata.Creator`) is
+  * util/libwasm/plugin.go `router.DispatchMsg` → `verifyCreator` / `verifyCreatorOf`: the protobuf message is decoded
+    and, descending through authz `MsgExec` wrappers (at most `cMaxNestedMsgDepth` of them), EVERY message with Paloma
+    metadata must name the dispatching contract — `contractAddr.String()`, the canonical spelling — as its creator;
+    messages without metadata (bank, feegrant) pass.  The router keeps NO state between dispatches: the verdict is a
+    function of the contract address and the message alone, whatever went through the router before;
+  * wasmd `handleSdkMessage`: every declared signer of the dispatched message is the contract (for `MsgExec`: its
+    grantee);
+  * authz `DispatchActions`: an inner message whose single declared signer is the grantee is executed without any
+    authorisation, any other one needs an authz grant (the harness issues none: `ErrNoAuthorizationFound`);
+  * the handlers, in order, on the cached store of the dispatch (wasmd `DispatchSubmessages`): all or nothing.
+
+`wasm s c depth g msgs`: contract `c` dispatches ONE Any message — `depth = 0`: the single message of `msgs` bare;
+`depth > 0`: `depth` nested `MsgExec{grantee = g}` wrappers around the list `msgs`.  Environment assumption: the
+address of a contract has an account (wasmd creates it at instantiation); the harness only lets account holders stand
+for a contract. -/
+
+/-- `verifyCreatorOf` on one message that is not a `MsgExec`: Paloma metadata names `c` (canonical spelling) as creator -/
+def creatorIs (c : Addr) : Op → Bool
+  | .create _ cr _ _ _ _ _ => cr == c
+  | .activate _ cr _ => cr.upper == false && cr.addr == c
+  | .auth _ cr => cr.upper == false && cr.addr == c
+  | .legacy _ cr => cr == c
+  | _ => true
+
+/-- the single declared signer of the message is `c` -/
+def signerIs (c : Addr) : Op → Bool
+  | .create sg _ _ _ _ _ _ => sg == c
+  | .activate sg _ _ => sg == c
+  | .auth sg _ => sg == c
+  | .legacy sg _ => sg == c
+  | .send a _ _ _ _ => a == c
+  | .grant g _ => g == c
+  | _ => false
+
+/-- `cMaxNestedMsgDepth` -/
+def maxExecDepth : Nat := 6
+
+def wasm (s : State) (c : Addr) (depth : Nat) (g : Addr) (msgs : List Op) : State × Res :=
+  if s.acct c = .none then (s, .rejected) else                   -- (environment: a contract address has an account)
+  if msgs.isEmpty then (s, .rejected) else                       -- MsgExec.ValidateBasic: no messages
+  if depth = 0 ∧ msgs.length ≠ 1 then (s, .rejected) else        -- a bare dispatch is ONE message
+  if maxExecDepth < depth then (s, .rejected) else               -- router: "authz messages nested too deeply"
+  if msgs.all (creatorIs c) = false then (s, .rejected) else     -- router: "contract … cannot dispatch a message created by …"
+  if 0 < depth ∧ g ≠ c then (s, .rejected) else                  -- wasmd: the signer of MsgExec (its grantee) is not the contract
+  if msgs.all (signerIs c) = false then (s, .rejected) else      -- wasmd (bare) / authz (no authorisation found)
+  match execAll s msgs with
+  | none => (s, .rejected)                                       -- a handler failed: the cached store is dropped
+  | some s' => (s', .ok)
+
+/-- an event of a chain history with contracts: an `Ev`, or one dispatch of a contract -/
+inductive WEv where
+  | ev (e : Ev)
+  | wasm (c : Addr) (depth : Nat) (g : Addr) (msgs : List Op)
+deriving Repr
+
+def stepW (s : State) : WEv → State × Res
+  | .ev e => stepEv s e
+  | .wasm c depth g msgs => wasm s c depth g msgs
+
+def runW (s : State) : List WEv → State
+  | [] => s
+  | e :: es => runW (stepW s e).1 es
+
 end Paloma.LightNode
